@@ -152,9 +152,105 @@ def inst_C20(profile):
     return obs
 
 
+def inst_C12(profile):
+    obs = okb_lift(["C12.C12_and_positionwise @C (codec_okb_sound @C @INST)",
+                    "C12.C12_contains @C (codec_okb_sound @C @INST)"], codecs=["iupac"])(profile)
+    obs.append({"name": "IUPAC codes are the documented nucleotide sets (bit 3 = A .. bit 0 = T)",
+                "expr": "iupac_check iupac", "lift": ["C05Check.iupac_check_sound iupac @INST"]})
+    obs.append({"name": "Iupac::from(Dna) is the singleton set of the base",
+                "expr": "forallb (fun p => N.eqb (snd p) (base_bit (fst p))) dna_to_iupac && "
+                        "Nat.eqb (length dna_to_iupac) 4"})
+    return obs
+
+
+def inst_C19(profile):
+    obs = okb(profile)
+    obs.append({"name": "Dna -> Iupac keeps the display letter of every base",
+                "expr": "forallb (fun p => opt_eqb (to_char iupac (snd p)) (to_char dna (fst p))) dna_to_iupac && "
+                        "Nat.eqb (length dna_to_iupac) 4"})
+    obs.append({"name": "Dna -> text keeps the display letter of every base",
+                "expr": "forallb (fun p => opt_eqb (to_char text (snd p)) (to_char dna (fst p))) dna_to_text && "
+                        "Nat.eqb (length dna_to_text) 4"})
+    obs.append({"name": "text -> Dna succeeds exactly for A, C, G, T (all 256 bytes), else reports the byte",
+                "expr": "forallb (fun b => match nth (N.to_nat b) text_to_dna None with "
+                        "| Some d => opt_eqb (to_char dna d) (Some b) "
+                        "| None => negb (inb b [65; 67; 71; 84]) && opt_eqb (nth (N.to_nat b) text_to_dna_err None) (Some b) "
+                        "end) bytes256"})
+    return obs
+
+
+def inst_C13(profile):
+    obs = okb(profile)
+    obs.append({"name": "STANDARD.to_amino on all 64 codons = NCBI translation table 1",
+                "expr": "std_dna_check amino std_to_amino", "witness": "std_dna_witness amino std_to_amino",
+                "witness_meaning": "(c0, c1, c2): DNA codon (codes of its three bases) translated differently from NCBI table 1",
+                "lift": ["C13.C13_standard_table_is_ncbi1 amino std_to_amino @INST"]})
+    obs.append({"name": "the dump of STANDARD.to_amino equals the model's table read on all 64 codons",
+                "expr": "std_dump_is_model amino std_to_amino"})
+    obs.append({"name": "codons of length 0,1,2,4,5 are refused (panic)", "expr": "std_to_amino_badlen_panics"})
+    obs.append({"name": "dna is 2 bits wide", "expr": "Nat.eqb (c_bits dna) 2"})
+    return obs
+
+
+def inst_C14(profile):
+    obs = okb(profile)
+    obs.append({"name": "STANDARD.try_to_amino on all 16^3 IUPAC codons: sound, complete on gap-free codons, no panic",
+                "expr": "std_iupac_check amino std_try_to_amino",
+                "witness": "std_iupac_witness amino std_try_to_amino",
+                "witness_meaning": "(c0, c1, c2): raw IUPAC codes of the first codon whose translation is unsound, "
+                                   "incomplete or not an amino acid / ambiguity",
+                "lift": ["C14.C14_ambiguous_translation_sound_and_complete amino std_try_to_amino @INST"]})
+    obs.append({"name": "STANDARD.try_to_codon for all 21 amino symbols: a codon exactly when one IUPAC codon matches "
+                        "all and only the DNA codons of the amino acid",
+                "expr": "std_rev_check amino std_try_to_codon",
+                "witness": "find (fun p => negb (rev_ok amino (fst p) (snd p))) std_try_to_codon",
+                "lift": ["C14.C14_reverse_translation_exact amino std_try_to_codon @INST"]})
+    obs.append({"name": "codons of length 0,1,2,4,5,6,9 are reported invalid (with their own length)",
+                "expr": "forallb (fun e => match e with (n, TInvalid, m) => N.eqb n m | _ => false end) "
+                        "std_try_to_amino_badlen"})
+    obs.append({"name": "the reverse-translated codon translates back to the amino acid",
+                "expr": "forallb (fun p => match snd p with COk [c0; c1; c2] => tres_eqb (nth (iupac_index c0 c1 c2) "
+                        "std_try_to_amino TPanic) (TOk (fst p)) | _ => true end) std_try_to_codon"})
+    return obs
+
+
 PROOF_IMPORTS = ["Bits", "Codec", "Tables", "Spec", "Derive", "C05Check", "SeqModel", "SeqProofs", "SeqProofs2",
                  "SymMap", "C20Check", "IterProofs", "KmerModel", "KmerProofs", "KmerProofs2", "OrderProofs",
-                 "OrderKmer", "Rev2Bit", "KmerDna"]
+                 "OrderKmer", "Rev2Bit", "KmerDna", "IupacProofs", "Translate", "CodonTable"]
+
+def _c16(ctx, spec):
+    from .progchecks import c16_programs
+    c16_programs(ctx, spec)
+
+
+def _c17(ctx, spec):
+    from .progchecks import c17_programs
+    c17_programs(ctx, spec)
+
+
+def inst_C16(profile):
+    obs = okb(profile)
+    for c, t in (("dna", "macro_dna"), ("iupac", "macro_iupac")):
+        obs.append({"name": "the %s! macro alphabet agrees with the runtime decoder on every byte it accepts" % c,
+                    "expr": "macro_agreesb %s %s" % (c, t),
+                    "lift": ["macro_agreesb_sound %s (codec_okb_sound %s inst_%d) %s @INST" % (c, c, CODECS.index(c), t)]})
+    return obs
+
+
+def inst_C17(profile):
+    obs = okb(profile)
+    obs.append({"name": "parse_width = least n with max < 2^n (and the #[bits] check), on its whole numeric domain",
+                "expr": "width_tables_ok width_none width_attr",
+                "witness": "width_witness width_none width_attr",
+                "witness_meaning": "(#[bits] attribute or None, largest discriminant) where the compiled parse_width "
+                                   "differs from the specification"})
+    ds = write_decls()
+    for c, d in ds.items():
+        if d is not None:
+            obs.append({"name": "in-tree enum %s: derive model = compiled codec" % c,
+                        "expr": "derives_to (width_of_tables width_none width_attr) decl_%s %s" % (c, c)})
+    return obs
+
 
 C05_THEOREMS = ["C05_tables_consistent", "C05_dna_alphabet", "C05_iupac_nucleotide_sets", "C05_amino_codons",
                 "C05_text_literal_bytes", "C05_degenerate_strong_weak", "C05_complement_letters"]
@@ -228,14 +324,40 @@ REGISTRY = {
                 instances=okb_lift(["C11.C11_forward_iteration @C (codec_okb_sound @C @INST)", "C11.C11_reverse_iteration @C (codec_okb_sound @C @INST)",
                                     "C11.C11_windows @C (codec_okb_sound @C @INST)", "C11.C11_chunks @C (codec_okb_sound @C @INST)"]),
                 generators=[(c, P.gen_C11) for c in ALL]),
-    "C12": dict(theorems=[], instances=okb, generators=[("iupac", P.gen_C12)]),
-    "C13": dict(theorems=[], instances=okb, generators=[("dna", P.gen_C13)]),
-    "C14": dict(theorems=[], instances=okb, generators=[("iupac", P.gen_C14)]),
-    "C15": dict(theorems=[], instances=okb,
-                generators=[("dna", P.gen_C15), ("iupac", P.gen_C15)]),
+    "C12": dict(theorems=theorems_of("C12"), imports=PROOF_IMPORTS,
+                extra_imports=["From BioSeqProps Require Import C12."],
+                instances=inst_C12, generators=[("iupac", P.gen_C12)]),
+    "C13": dict(theorems=theorems_of("C13"), imports=PROOF_IMPORTS,
+                extra_imports=["From BioSeqProps Require Import C13."],
+                instances=inst_C13, generators=[("dna", P.gen_C13)]),
+    "C14": dict(theorems=theorems_of("C14"), imports=PROOF_IMPORTS,
+                extra_imports=["From BioSeqProps Require Import C14."], exhaustive=True,
+                instances=inst_C14, generators=[("iupac", P.gen_C14)]),
+    "C15": dict(theorems=theorems_of("C15"), imports=PROOF_IMPORTS,
+                extra_imports=["From BioSeqProps Require Import C15."],
+                instances=okb, generators=[("dna", P.gen_C15), ("iupac", P.gen_C15)],
+                trusted_extra=["std::collections::HashMap (lookup by Borrow<SeqSlice>; iteration yields each entry "
+                               "once in some order: modelled as an arbitrary permutation)"]),
+    "C16": dict(theorems=theorems_of("C16"), imports=PROOF_IMPORTS + ["Macro"],
+                extra_imports=["From BioSeqProps Require Import C16."],
+                instances=inst_C16, extra=[_c16],
+                rule="each literal is a separate macro expansion in a generated crate compiled with the real macros in "
+                     "dev and release (valid literals: value compared with the Gallina macro model and with runtime "
+                     "parsing; invalid literals: one offending character each, must be rejected at their own line)",
+                trusted_extra=["rustc/cargo: that an error diagnostic whose span is the literal's line means the "
+                               "literal does not compile (the 'is a compile error' half is rustc's behaviour)"]),
+    "C17": dict(theorems=theorems_of("C17"), imports=PROOF_IMPORTS,
+                extra_imports=(["From BioSeqProps Require Import C17."] if theorems_of("C17") else []) +
+                ["From BioSeqGen Require Import Decls."],
+                instances=inst_C17, extra=[_c17],
+                rule="enum declarations generated as source (2..40 variants, int/bin/hex/byte discriminants, alternatives, "
+                     "display characters, optional width), compiled with the real derive in dev and release, dumped over "
+                     "all 256 bytes and compared with the Gallina derive model applied to the same declaration; malformed "
+                     "declarations must be rejected at their own lines"),
     "C18": dict(theorems=[], instances=okb, generators=[(c, P.gen_C18) for c in ALL]),
-    "C19": dict(theorems=[], instances=okb,
-                generators=[("dna", P.gen_C19_conv)] + [(c, P.gen_C19_trim) for c in ALL]),
+    "C19": dict(theorems=theorems_of("C19"), imports=PROOF_IMPORTS,
+                extra_imports=["From BioSeqProps Require Import C19."],
+                instances=inst_C19, generators=[("dna", P.gen_C19_conv)] + [(c, P.gen_C19_trim) for c in ALL]),
     "C20": dict(theorems=theorems_of("C20"), imports=PROOF_IMPORTS,
                 extra_imports=["From BioSeqProps Require Import C20."],
                 instances=inst_C20, generators=[("mdna", P.gen_C20), ("miupac", P.gen_C20)]),
